@@ -41,8 +41,8 @@ ASSUMPTIONS = [
     "after expand_dims every later harvest sweeps the new dimension",
 ]
 
-A_VALS = [1, 2, 3, 5]
-B_VALS = ["p", "q", "r"]
+A_VALS = [1, 2, 3, 2.5]              # an int coordinate that later turns float
+B_VALS = ["p", "qq", "rrr"]       # growing lengths on purpose
 C_VALS = [0.5, 1.5, 2.5]
 UNIVERSE = {"a": A_VALS, "b": B_VALS, "c": C_VALS}
 T_COORD = [10, 20]
